@@ -47,17 +47,17 @@ func genCase(t *rapid.T) *fetchCase {
 			switch mode {
 			case 1:
 				if rapid.IntRange(0, 9).Draw(t, label+"f") == 0 {
-					f[i] = rapid.IntRange(1, 5).Draw(t, label+"kind")
+					f[i] = rapid.IntRange(1, 6).Draw(t, label+"kind")
 				}
 			case 2:
 				if rapid.Bool().Draw(t, label+"f") {
-					f[i] = rapid.IntRange(1, 5).Draw(t, label+"kind")
+					f[i] = rapid.IntRange(1, 6).Draw(t, label+"kind")
 				}
 			case 3:
-				f[i] = rapid.IntRange(1, 5).Draw(t, label+"kind")
+				f[i] = rapid.IntRange(1, 6).Draw(t, label+"kind")
 			case 4:
 				if i < 128 && n > 128 {
-					f[i] = rapid.IntRange(1, 5).Draw(t, label+"kind")
+					f[i] = rapid.IntRange(1, 6).Draw(t, label+"kind")
 				}
 			}
 			da[i] = rapid.IntRange(0, 3).Draw(t, label+"da")
@@ -174,7 +174,7 @@ func run(c *fetchCase, delays []int, skipFailed bool) outcome {
 					tr.resp[path] = func() (*http.Response, error) { return nil, fmt.Errorf("scripted: connection refused") }
 				case 2:
 					tr.resp[path] = func() (*http.Response, error) { return httpResp(200, []byte("<html>not a profile</html>")) }
-				case 3, 5:
+				case 3, 5, 6:
 					tr.resp[path] = func() (*http.Response, error) { return httpResp(500, []byte("boom")) }
 				default:
 					tr.resp[path] = func() (*http.Response, error) { return httpResp(404, []byte("nope")) }
@@ -184,7 +184,7 @@ func run(c *fetchCase, delays []int, skipFailed bool) outcome {
 				switch fail {
 				case 0:
 					os.WriteFile(name, serial(p), 0o644)
-				case 2, 3, 5:
+				case 2, 3, 5, 6:
 					os.WriteFile(name, []byte("garbage that is no profile"), 0o644)
 				default: // missing file
 				}
@@ -208,6 +208,11 @@ func run(c *fetchCase, delays []int, skipFailed bool) outcome {
 				// the plug-in hands over a profile object that is not valid (two values for one sample type)
 				bad := mkProfile(i, base, c.Units)
 				bad.Sample[0].Value = []int64{1, 2}
+				s.Prof = bad
+			case 6:
+				// ... or one whose sample has fewer values than there are sample types
+				bad := mkProfile(i, base, c.Units)
+				bad.Sample[0].Value = []int64{}
 				s.Prof = bad
 			}
 			srcs[name] = s
@@ -414,5 +419,5 @@ func sorted(s []string) []string {
 
 func TestPropFetch(t *testing.T) {
 	vk.Main(t, vk.Spec[fetchCase]{ID: "C16", Facet: "fetch", Quick: 600, Thorough: 3000, Gen: genCase, Check: check, Journal: true,
-		Rule: "source lists of 1..300 (sizes biased to 1,2,127,128,129,130,255,256,257,300) and base lists of 0..129 (-base or -diff_base), every source with its own comment, header and stack, in a quarter of the cases with the sample type in a different unit per source (s, ns, ms); failure subsets (none/few/many/all/the whole first chunk of 128) of kinds {fetcher error or missing file, garbage body, invalid-but-decodable profile or HTTP 500, HTTP 404, invalid profile object handed over by the plug-in}; through the Fetcher plug-in or through pprof's own file/HTTP fetcher with a scripted RoundTripper; per-source delays perturb the completion order; oracle: canonical sum of exactly the successful sources minus bases, comments and header precedence in command-line order, one error line per failed source plus the 'Fetched k of n' line, error iff nothing (or no base) could be fetched, byte-identical output under a second completion order and with the failing sources left off; non-trivial = >=2 successes and >=1 failure, or a list crossing 128"})
+		Rule: "source lists of 1..300 (sizes biased to 1,2,127,128,129,130,255,256,257,300) and base lists of 0..129 (-base or -diff_base), every source with its own comment, header and stack, in a quarter of the cases with the sample type in a different unit per source (s, ns, ms); failure subsets (none/few/many/all/the whole first chunk of 128) of kinds {fetcher error or missing file, garbage body, invalid-but-decodable profile or HTTP 500, HTTP 404, invalid profile object handed over by the plug-in (too many or too few values per sample)}; through the Fetcher plug-in or through pprof's own file/HTTP fetcher with a scripted RoundTripper; per-source delays perturb the completion order; oracle: canonical sum of exactly the successful sources minus bases, comments and header precedence in command-line order, one error line per failed source plus the 'Fetched k of n' line, error iff nothing (or no base) could be fetched, byte-identical output under a second completion order and with the failing sources left off; non-trivial = >=2 successes and >=1 failure, or a list crossing 128"})
 }
